@@ -30,8 +30,8 @@ class C18(Check):
     trusted_base = ["model Model/BufPool.lean hand-written from switch.py _buffer_packet/_process_actions_for_packet_from_buffer/send_packet_in; tied by this correspondence run"]
     assumptions = ["single-threaded datapath (cooperative tasks): buffer operations are not interleaved",
                    "frames used by the harness parse as Ethernet (>= 14 bytes)"]
-    rule = ("case = (max_buffers 0..4, miss_send_len, history over {miss arrival, output:CONTROLLER(max_len) arrival, packet_out(buffer id), flow_mod(buffer id), "
-            "stale/bogus/zero ids, set_config}); corpus = all histories of length <= 4 over a 7-op alphabet with pool sizes 0..2; non-trivial = some id is handed out and later used, or the pool fills")
+    rule = ("case = (max_buffers 0..4, miss_send_len, history over {miss arrival, output:CONTROLLER(max_len) arrival, packet_out(buffer id), flow_mod(buffer id), the same with an empty action list (drop), "
+            "stale/bogus/zero ids, set_config}); corpus = all histories of length <= 4 over a 9-op alphabet with pool sizes 0..2; non-trivial = some id is handed out and later used, or the pool fills")
 
     def setup(self):
         poxenv.boot()
@@ -40,7 +40,8 @@ class C18(Check):
 
     ALPHA = [{"op": "arrive", "i": 0, "len": 20, "port": 1, "dl": None}, {"op": "arrive", "i": 1, "len": 14, "port": 2, "dl": 3},
              {"op": "use", "id": 1, "via": "po"}, {"op": "use", "id": 2, "via": "fm"}, {"op": "use", "id": 0, "via": "po"},
-             {"op": "use", "id": 3, "via": "po"}, {"op": "setmiss", "n": 16}, {"op": "usectl", "id": 1, "dl": 7, "via": "po"}]
+             {"op": "use", "id": 3, "via": "po"}, {"op": "setmiss", "n": 16}, {"op": "usectl", "id": 1, "dl": 7, "via": "po"},
+             {"op": "drop", "id": 1, "via": "po"}]
 
     def corpus(self):
         cases = []
@@ -56,6 +57,8 @@ class C18(Check):
         if r < 0.45:
             return {"op": "arrive", "i": k, "len": rng.choice([14, 15, 20, 64, 128, 129, 200, rng.randint(14, 300)]), "port": rng.randint(1, 4),
                     "dl": rng.choice([None, None, 0, 1, 14, 128, 65535, rng.randint(0, 300)])}
+        if r < 0.52:
+            return {"op": "drop", "id": rng.choice([0, 1, 1, 2, 2, 3, mx, mx + 1, rng.randint(0, mx + 2)]), "via": rng.choice(["po", "po", "fm"])}
         if r < 0.75:
             return {"op": "use", "id": rng.choice([0, 1, 1, 2, 2, 3, mx, mx + 1, rng.randint(0, mx + 2), 0xfffffffe]), "via": rng.choice(["po", "po", "fm"])}
         if r < 0.9:
@@ -108,8 +111,9 @@ class C18(Check):
                     outs.append({"k": "unexpected", "status": st, "emitted": len(em), "replies": pins(rep)})
                 elif o: outs.append(o[0])
                 else: outs.append({"k": "none"})
-            elif op["op"] == "use":
-                act = [of.ofp_action_output(port=of.OFPP_IN_PORT)]
+            elif op["op"] in ("use", "drop"):
+                # "drop": an EMPTY action list — the packet is discarded, the buffer is released all the same
+                act = [of.ofp_action_output(port=of.OFPP_IN_PORT)] if op["op"] == "use" else []
                 if op["via"] == "po":
                     msg = of.ofp_packet_out(buffer_id=op["id"], in_port=of.OFPP_NONE, actions=act)
                 else:    # a flow_mod naming the buffer; its match never matches harness frames (in_port 77)
@@ -133,6 +137,7 @@ class C18(Check):
         for op in case["ops"]:
             if op["op"] == "arrive": ops.append({"op": "arrive", "fr": frame(op["i"], op["len"]).hex(), "port": op["port"], "dl": op["dl"]})
             elif op["op"] == "use": ops.append({"op": "use", "id": op["id"]})
+            elif op["op"] == "drop": ops.append({"op": "drop", "id": op["id"]})
             elif op["op"] == "usectl": ops.append({"op": "usectl", "id": op["id"], "dl": op["dl"]})
             else: ops.append({"op": "setmiss", "n": op["n"]})
         return {"max": case["max"], "miss": case["miss"], "ops": ops}
@@ -173,6 +178,9 @@ class C18(Check):
                     if bid is not None: live[bid] = (fr, port)
                 else:
                     if o["k"] != "none": return "using unknown/used buffer id emitted a packet"
+            elif op["op"] == "drop":
+                live.pop(op["id"], None)              # released whether or not anything is emitted (checked by the stored count and by later uses)
+                if o["k"] != "none": return "a packet-out/flow-mod with an empty action list emitted a packet"
             elif op["op"] == "use":
                 if op["id"] in live:
                     fr, port = live.pop(op["id"])
